@@ -48,6 +48,21 @@ T = {
  "C20-a": dict(property="C20", needs="two interpreters; the receiver has already planned/computed a same-named local array with the same optimize arguments; the shipped array computed alone",
                caught_by={"C20": "alone_failed:ArrayNotFoundError"},
                note="missed at first; caught after the exact-twin (receiver builds the same program from the same counters) and local-first orderings were added, and after failures of the alone computation were separated from the known name-collision finding"),
+ "C02-a": dict(property="C02", needs="always_fuse / fuse_all / fuse_only optimizer and >= 2 requested arrays one of which is the sole-consumer input of another",
+               caught_by={"C02": "optimized_plan_failed_in_execution:ArrayNotFoundError (requested array fused away and never written)"}),
+ "C02-b": dict(property="C02", needs="optimize_function=simple_optimize_dag, fused pair whose predecessor has >= 2 distinct inputs, a later input produced deeper in the DAG (dependency edge dropped)",
+               caught_by={"C02": "optimized_differs_from_unoptimized (fill values read)"},
+               note="missed at 600 runs while the legacy optimizer was sampled in 1/18 of the runs (it had been throttled because of the known finding); caught at the quick budget after its weight was raised to 3/20"),
+ "C04-a": dict(property="C04", needs="forced-fusion optimizer, an op with >= 2 fusable multi-input predecessors, allowed_mem between the unfused and the fused projection (admission check looks at the unoptimized plan)",
+               caught_by={"C04": "plan_exceeds_memory_flag_wrong / over_budget_plan_executed / executor_entered_for_over_budget_plan"}),
+ "C04-b": dict(property="C04", needs="default optimizer, same geometry, allowed_mem between unfused and fused projection (memory guard skipped when max_total_num_input_blocks is set)",
+               caught_by={"C04": "optimization_pushed_plan_over_budget"}),
+ "C12-a": dict(property="C12", needs="partial_reduce / tree_reduce called directly on unreduced chunks with initial_func=None and a group of one block, output materialised",
+               caught_by={},
+               note="NOT caught, and not strengthened: by the seeder's own analysis no public function reaches the changed branch with an unreduced block (every public reduction reduces each block first); a direct tree_reduce op was tried and withdrawn because calling the helper on unreduced single-block axes is outside its contract on the unchanged tree too (it returns the input unreduced)"),
+ "C12-b": dict(property="C12", needs="sum/prod/cumulative_* of an unsigned integer array without dtype= (dict keyed by scalar types misses np.dtype instances)",
+               caught_by={"C01": "wrong_value (int64 instead of uint64 results wrap negative after e.g. bitwise_invert)"},
+               note="C12 itself stays quiet: declared and computed dtype agree with each other (both int64); that the declared dtype is not the one NumPy / the array API prescribe is a value-level disagreement, which C01 reports"),
  "C20-b": dict(property="C20", needs="unpickling winds the local name counters backwards; new arrays built afterwards combined with older local arrays",
                caught_by={"C20": "wrong_value_combined / compute_failed (IndexError, NetworkXUnfeasible, broadcasting)"}),
 }
